@@ -527,6 +527,53 @@ pub fn run(ctx: &mut Ctx, replay: Option<&str>) {
             ctx.count(&format!("fmt.{}", a.args.fmt.name()));
         }
     }
+    // very long lists: thousands of well-formed disclosures that nothing references, before / after / around the genuine ones.
+    // The returned claims must be those of the genuine disclosures alone (that shorter list is judged against the model and
+    // the specification above; the extracted model is quadratic in the list length, so the long one is judged relative to it)
+    {
+        let lens: Vec<usize> = if ctx.tier == Tier::Quick { vec![1100, 4200, 9000] } else { vec![300, 1100, 2100, 4090, 4100, 4200, 8200, 9000, 17000, 70000] };
+        for (li, n) in lens.into_iter().enumerate() {
+            let mut r = ctx.rng.fork(7_000_000 + li as u64);
+            let claims = gen_claims(&mut r, &TreeCfg { max_depth: 3, max_fanout: 4, path_safe_names: false, plain: false }, now());
+            let fmt = if li % 2 == 0 { Fmt::Compact } else { Fmt::Json };
+            let a = IssueArgs { claims: claims.clone(), strategy: Strategy::All, holder: None, decoy: li % 3 == 0, fmt, key: KeyId::IssuerEc, alg: None, queue: None };
+            let issued = issue(&a);
+            ctx.impl_calls += 1;
+            let parts = match issued.out.ok().and_then(|s| split(fmt, s)) {
+                Some(p) => p,
+                None => continue,
+            };
+            let junk: Vec<String> = (0..n).map(|k| b64_json(&json!([format!("c2FsdC1qdW5r{}", k), format!("junk{}", k), k]))).collect();
+            let short = VerifyArgs { input: parts.render(fmt), fmt, resolver: Resolver::always(a.key), aud: None, nonce: None };
+            let want = verify(&short);
+            ctx.impl_calls += 1;
+            for (name, ds) in [
+                ("junk-then-genuine", junk.iter().cloned().chain(parts.disclosures.iter().cloned()).collect::<Vec<_>>()),
+                ("genuine-then-junk", parts.disclosures.iter().cloned().chain(junk.iter().cloned()).collect::<Vec<_>>()),
+                ("genuine-in-the-middle", junk[..n / 2].iter().cloned().chain(parts.disclosures.iter().cloned()).chain(junk[n / 2..].iter().cloned()).collect::<Vec<_>>()),
+            ] {
+                for f2 in [Fmt::Compact, Fmt::Json] {
+                    let long = VerifyArgs { input: Parts { jwt: parts.jwt.clone(), disclosures: ds.clone(), kb: None }.render(f2), ..short.clone() };
+                    let long = VerifyArgs { fmt: f2, ..long };
+                    let got = verify(&long);
+                    ctx.impl_calls += 1;
+                    ctx.evaluations += 1;
+                    ctx.oracle_checks += 1;
+                    ctx.count(&format!("list.long-{}.{}", name, f2.name()));
+                    let case = json!({"long_list": {"unreferenced_disclosures": n, "shape": name, "fmt": f2.name(), "claims": claims, "genuine": parts.disclosures, "jwt": parts.jwt}});
+                    let same = match (&want.out, &got.out) {
+                        (Outcome::Ok(x), Outcome::Ok(y)) => x == y,
+                        _ => false,
+                    };
+                    if same {
+                        ctx.nontrivial(&case);
+                    } else {
+                        ctx.violation("oracle", "verify", "a long list of unreferenced disclosures around the genuine ones changes the result", case, got.out.describe(), want.out.describe());
+                    }
+                }
+            }
+        }
+    }
     for pick in ["altered-value-replacing", "forged-iss", "child-without-parent"] {
         if let Some(a) = attacks.iter().find(|a| a.name.starts_with(pick)) {
             ctx.sample(json!({"list": a.name, "input": a.args.input}));
